@@ -156,3 +156,76 @@ func init() {
 		Assumptions: commonAssumptions,
 	})
 }
+
+func init() {
+	register("C08", &propDef{
+		Rules: []ruleDef{
+			{"C08.layout", ruleRecordLayout, ""},
+			{"C08.gates", ruleC08Gates, ""},
+			{"C08.compact-complete", ruleC03CompactComplete, ""},
+			{"C08.size-mirror", ruleC04SizeMirror, ""},
+			{"C08.alloc-bound", ruleC19AllocBound, ""},
+		},
+		Explanation: "Decides: (layout) by abstract interpretation of slice positions (linear forms over K=len(key), V=len(value)) the record encoder and the decoder used by recovery frame records exactly as documented: keysize u16 LE @0, (type bit 31 | valuesize) u32 LE @2, key @6, value @6+K, CRC32-IEEE u32 LE @6+K+V over [0,6+K+V), total 10+K+V, type bit set/decoded exactly for delete records; (gates) a record is returned and the iterator offset advanced (by 10+K+V) only behind the checksum equality, recovery truncates at that offset, every error the segment iterator can return is one recovery compares against (or the io.ReadFull pass-through with io.EOF and io.ErrUnexpectedEOF both recognised), end-of-segment is reported only at a record boundary, and after a truncation the iterator continues with the next segment. NOT decided: replay equality against an independent decoder on all byte strings; the error-detection strength of CRC-32.",
+		Assumptions: commonAssumptions,
+	})
+	register("C18", &propDef{
+		Rules: []ruleDef{
+			{"C18.header", ruleC18Header, ""},
+			{"C18.bucket", ruleC18Bucket, ""},
+			{"C18.record", ruleRecordLayout, ""},
+			{"C18.names", ruleC18Names, ""},
+			{"C18.gob", ruleC18Gob, ""},
+			{"C18.name-families", ruleC15NameFamilies, ""},
+		},
+		Explanation: "Decides that the writer-side and reader-side tables of the current code equal the frozen tables of the documented/pinned format v2: header (signature bytes, version 2 LE @8, 512 bytes, written into every new file and checked on every existing one), bucket (31 slots x 16 bytes: hash u32@0, segmentID u16@4, keySize u16@6, valueSize u32@8, offset u32@12, LE; overflow pointer u64 LE @496; bucket i at 512+512*i), record layout (as C08), file names (%05d-%d.psg and the legacy form, .pmt, main.pix, overflow.pix, index.pmt, db.pmt, lock, .bac), gob metadata field names and types, MurmurHash3 constants. Layouts are extracted from the SSA of the marshal/unmarshal functions by an abstract interpreter for slice positions, not matched textually. NOT decided: opening a golden corpus (dynamic); gob wire compatibility beyond field names/types; bucket-addressing arithmetic.",
+		Assumptions: commonAssumptions,
+	})
+}
+
+func init() {
+	register("C02", &propDef{
+		Rules: []ruleDef{
+			{"C02.meta-symmetry", ruleC02MetaSymmetry, ""},
+			{"C02.close-persists", ruleCloseOrder, ""},
+			{"C02.sync-before-close", ruleC09SyncBeforeClose, ""},
+			{"C02.open-order", ruleOpenOrder, ""},
+			{"C02.errs", ruleErrs, ""},
+			{"C02.swap-never-sealed", ruleC05SwapNeverSealed, ""},
+			{"C02.mapping", ruleC17, ""},
+		},
+		Explanation: "Decides: (meta-symmetry) every field of the persisted metadata structs (indexMeta, dbMeta) is written from, and restored into, the same state field; every index field that changes during a session is persisted; Close and Open agree on the metadata file names and datalog.close writes each segment's own meta under its own name; (close-persists) every success return of Close wrote the db meta, every non-nil segment's meta, the index meta, and released the lock last; (open-order) a directory whose lock file did not pre-exist is opened without recovery, one whose lock file pre-existed is recovered; (errs) no error of a call in package pogreb is dropped on a path that can still report success; (swap-never-sealed) the segment picked as current at Open is one that is not full; (mapping) the memory-mapped file keeps its logical size in step and maps a file whole when it is opened larger than the initial mapping. NOT decided: that reopened contents/Count equal the closed ones for all histories; 'Open+Close changes nothing'.",
+		Assumptions: commonAssumptions,
+	})
+	register("C13", &propDef{
+		Rules: []ruleDef{
+			{"C13.lock-revalidate", ruleC13Lock, ""},
+			{"C13.mem-lock", ruleC13Mem, ""},
+			{"C13.open-order", ruleOpenOrder, ""},
+			{"C13.unlock-owner", ruleCloseOrder, ""},
+		},
+		Explanation: "Decides for the unix lock implementation (the one that can be built and reasoned about here; windows/plan9 are listed as not decided): success is returned only after a successful exclusive non-blocking flock on the descriptor opened here AND a re-validation, made after the flock, that the path still names the locked inode (os.SameFile of fstat and stat); Unlock unlinks the path before closing (the order the re-validation relies on); the in-memory lock refuses a held lock; Open takes the lock before any other file-system call, touches nothing when the lock is not acquired, recovers iff the lock file pre-existed; only a completed Close releases the lock. These forbid the known path/inode windows; they do NOT prove mutual exclusion under all interleavings, and the 'already existed' flag (stat before create) is reported as advisory only.",
+		Assumptions: append([]string{"flock semantics of the host OS; os.SameFile compares device+inode"}, commonAssumptions...),
+	})
+	register("C16", &propDef{
+		Rules: []ruleDef{
+			{"C16.narrowing", ruleC16Narrowing, ""},
+			{"C16.const-relations", ruleC16Consts, ""},
+			{"C16.reject-before-effect", ruleC16Reject, ""},
+			{"C16.match-equal", ruleC01MatchEqual, ""},
+			{"C16.layout", ruleRecordLayout, ""},
+		},
+		Explanation: "Decides: (narrowing) every narrowing or sign-changing conversion of a non-constant integer in package pogreb is one of the reviewed sites with a stated bound (guard in Put, bounded decoded source, segment-size guard, comparison idiom backed by the full key comparison), no arithmetic on non-constants is carried out in a type narrower than 32 bits except the reviewed index.level; (const-relations) MaxKeyLength = 65535 fits the 16-bit fields, MaxValueLength = 512 MiB fits the 31-bit field, a maximal record fits the 32-bit offsets, segment ids fit 16 bits; (reject-before-effect) every call made by Put (hashing, locking, log append, index update) is reachable only after both limits were checked against those constants; look-ups compare the full key after the truncated length compare (match-equal); record length fields are laid out as documented (layout). NOT decided: byte-exact round trip of every admissible size through restart and recovery.",
+		Assumptions: commonAssumptions,
+	})
+	register("C17", &propDef{
+		Rules: []ruleDef{
+			{"C17", ruleC17, ""},
+			{"C17.size-mirror", ruleC04SizeMirror, ""},
+			{"C17.fs-readers-pure", ruleFSReadersPure, ""},
+			{"C17.no-alias-out", ruleC14NoAliasOut, ""},
+		},
+		Explanation: "Decides only sibling agreement of the fs.File implementations on the points the database relies on: every length-changing method of the mapped and the in-memory file maintains its logical size (Truncate sets it to its argument, shrinking included) and the mapped file re-establishes its mapping on every success path; Slice indexes the backing memory only when end <= logical size and returns io.EOF otherwise; a file opened larger than the initial mapping is mapped whole; the mapping is PROT_READ and never stored through; thread-safe readers do not write receiver state; package pogreb never inspects the dynamic type of its file system and never keeps memory returned by Slice (which differs between implementations: private copy / shared buffer / mapping). Equality of results and segment bytes across file systems for all programs is a relational run-time property and is NOT decided.",
+		Assumptions: commonAssumptions,
+	})
+}
